@@ -1,6 +1,7 @@
 package main
 
 import (
+	"encoding/json"
 	"flag"
 	"fmt"
 	"math/rand"
@@ -70,6 +71,10 @@ func main() {
 				genVectors(g, *prop, *testdata)
 				w.close()
 			}
+		}
+		if len(gridStats) > 0 {
+			b, _ := json.Marshal(gridStats)
+			os.WriteFile(filepath.Join(*out, "grids.json"), b, 0o644)
 		}
 	case "replay":
 		replayMain(os.Args[2:])
